@@ -152,8 +152,16 @@ func (g *gen) graph(depthLeft int, singleton bool, top bool) *Graph {
 		}
 		gr.Stages = append(gr.Stages, st)
 	}
+	// a graph that is a plain sequence may be built through the Chain front end
+	if !gr.Loop && !gr.WF && !gr.Dag && r.Chance(30, 100) { // (a chain is always a Pregel graph)
+		seq := true
+		for _, w := range widths {
+			seq = seq && w == 1
+		}
+		gr.Chain = seq
+	}
 	// an acyclic Pregel graph with single-node first and last stages may reach END through a branch
-	if !gr.Loop && !gr.Dag && !gr.WF && widths[0] == 1 && widths[len(widths)-1] == 1 && r.Chance(25, 100) {
+	if !gr.Loop && !gr.Dag && !gr.WF && !gr.Chain && widths[0] == 1 && widths[len(widths)-1] == 1 && r.Chance(25, 100) {
 		gr.EndBr = true
 	}
 	if gr.Loop || gr.EndBr {
@@ -192,6 +200,11 @@ func (engine) Generate(r *lib.Rng, tier string, i int) any {
 	nf := g.weighted(8, 52, 27, 13)
 	if tier == "thorough" && r.Chance(10, 100) {
 		nf = 4
+	}
+	// a context cancelled before the call: half of these cases have nothing else to report
+	c.CancelBefore = r.Chance(6, 100)
+	if c.CancelBefore && r.Chance(50, 100) {
+		nf = 0
 	}
 	perm := r.Perm(len(g.slots))
 	hasRerun, hasConv := false, false
@@ -265,7 +278,6 @@ func (engine) Generate(r *lib.Rng, tier string, i int) any {
 	if r.Chance(7, 100) {
 		g.sharedItem(c.G)
 	}
-	c.CancelBefore = r.Chance(4, 100)
 	if (c.Par == "collect" || c.Par == "transform") && r.Chance(6, 100) {
 		c.InErr = g.errSpec()
 	}
@@ -294,6 +306,7 @@ func (g *gen) sharedItem(top *Graph) {
 		return
 	}
 	s := r.Intn(len(top.Stages) - 1)
+	top.Chain = false // the consumers' stage becomes two or three nodes wide
 	e := g.errSpec()
 	e.Nested = r.Chance(80, 100)
 	if r.Chance(60, 100) {
